@@ -263,9 +263,10 @@ def keys_gen(label, maxatoms, alphabet, timeout=900, simulate=None, depth=None):
 def c16(tier):
     if tier == 'quick':
         return [keys_gen('keys2-full', 2, 'full'), keys_gen('keys3-reduced', 3, 'reduced'),
-                keys_gen('keys-long-simulated', 8, 'full', timeout=15, simulate=100000, depth=9)]
+                keys_gen('keys-long-simulated', 8, 'full', timeout=15, simulate=100000, depth=9),
+                keys_gen('key-lengths-1..100', 100, 'lengths')]
     return [keys_gen('keys3-full', 3, 'full', 7200), keys_gen('keys4-reduced', 4, 'reduced', 7200),
-            keys_gen('keys-long-simulated', 12, 'full', timeout=600, simulate=10000000, depth=13)]
+            keys_gen('keys-long-simulated', 12, 'full', timeout=600, simulate=10000000, depth=13), keys_gen('key-lengths-1..120', 120, 'lengths', 3600)]
 
 
 def c07(tier):
